@@ -147,7 +147,11 @@ func (index *metricIndexDatabase) GenSeriesID(metricID metric.ID, row *metric.St
 	binary.LittleEndian.PutUint64(scratch[:], tagsHash)
 
 	seriesID, isNewSeries, err = index.series.GetOrCreateValue(uint32(metricID), scratch[:], func() (uint32, error) {
-		return index.createSeriesID(metricID), nil
+		newSeriesID := index.createSeriesID(metricID)
+		// remember the sequence while the store still holds its write lock: the creator of the
+		// metric's next series must not compute the same id again
+		index.sequenceCache.Add(metricID, newSeriesID)
+		return newSeriesID, nil
 	})
 	if err == nil && isNewSeries {
 		limits := models.GetDatabaseLimits(index.metaDB.Name())
@@ -156,8 +160,6 @@ func (index *metricIndexDatabase) GenSeriesID(metricID metric.ID, row *metric.St
 			return 0, constants.ErrTooManySeries
 		}
 		// if new series do inverted index build
-		index.sequenceCache.Add(metricID, seriesID)
-
 		// write metric inverted index
 		index.lock.Lock()
 		index.metricInverted.put(uint32(metricID), seriesID)
